@@ -353,13 +353,19 @@ def run_composites(ctx):
         ctx.ev(); ctx.counters["composites"] += 1; ctx.key(("precalc", tail is not None, len(ivs)))
         if p: ctx.V(f"C14:precalculated-zone:{p[0]}", f"_PrecalculatedDateTimeZone with {len(ivs)} intervals, tail={tail is not None}: {p}", {"kind": "precalc"}, p)
     for s in [0, 3600, -3600, 19800, 1, 64800, -64800] + [rng.randint(-64800, 64800) for _ in range(40)]:
-        for name in (None, "NAME"):
-            z = _FixedDateTimeZone(Offset.from_seconds(s), "Fixed/Id", name) if name else _FixedDateTimeZone(Offset.from_seconds(s), "Fixed/Id")
-            # this port has no writer method for fixed zones: the documented layout (offset, then name) is written with the real primitives
-            wr = (lambda w, x: x._write(w)) if hasattr(z, "_write") else (lambda w, x: (w.write_offset(x.offset), w.write_string(x.name)))
-            p, data = rt(wr, lambda r: _FixedDateTimeZone.read(r, "Fixed/Id"), z, pool=["Fixed/Id", "NAME"])
-            ctx.ev(); ctx.counters["composites"] += 1; ctx.key(("fixed", name is None))
-            if p: ctx.V(f"C14:fixed-zone:{p[0]}", f"_FixedDateTimeZone({s} s, name={name}): {p}", {"kind": "fixed", "s": s}, p)
+        for name in (None, "NAME", "", " ", "0", "-05"):
+            z = _FixedDateTimeZone(Offset.from_seconds(s), "Fixed/Id", name) if name is not None else _FixedDateTimeZone(Offset.from_seconds(s), "Fixed/Id")
+            # this port has no writer method for fixed zones: the documented layout (offset, then name) is written with the real primitives;
+            # the name written is the one asked for (not what the constructed object reports), and the decoded zone is judged on its own accessors
+            wname = name if name is not None else z.name
+            wr = (lambda w, x, wname=wname: (w.write_offset(Offset.from_seconds(s)), w.write_string(wname)))
+            def same(got, val, wname=wname, s=s):
+                from vf import gen
+                iv = got.get_zone_interval(gen.ns_inst(0))
+                return got.id == "Fixed/Id" and got.name == wname and iv.name == wname and iv.wall_offset.seconds == s and got.offset.seconds == s
+            p, data = rt(wr, lambda r: _FixedDateTimeZone.read(r, "Fixed/Id"), z, pool=["Fixed/Id", "NAME"], eq=same)
+            ctx.ev(); ctx.counters["composites"] += 1; ctx.key(("fixed", name))
+            if p: ctx.V(f"C14:fixed-zone:{p[0]}", f"fixed zone record (offset {s} s, name {wname!r}) read back: {p}", {"kind": "fixed", "s": s, "name": wname}, p)
     ctx.sample({"kind": "composites", "year_offsets": n, "maps": n // 4})
 
 
